@@ -925,8 +925,11 @@ F_BLOCKS = {
     end do
 '''),
     'as_actual': B('''    call addsc(fdbl(x), r)
-    r = r + max(fdbl(x), 1.5)
+    call addsc(fadd1(r), loc)
 ''', ADDSC, ['addsc']),
+    'intrinsic_call': B('''    r = r + max(x, 1.5)
+    r = r + max(fdbl(x), 1.5)
+'''),
     'as_subscript': B('''    r = r + b(fint(k))
     b(fint(1)) = 3.0
 '''),
@@ -972,10 +975,17 @@ F_BLOCKS = {
     real, intent(in) :: e
     integer, intent(in) :: ie
     real :: fops
-    fops = e * 2.0 - e ** 2 + 8.0 / real(24 / ie)
+    fops = e * 2.0 - e ** 2 + 2.0 ** ie
     fops = -e + fops - e
   end function fops
 ''', ['fops']),
+    'expr_div': B('''    j = j + fdiv(k + 1) + fdiv(k * 2)
+''', '''  @ELEM@function fdiv(ie)
+    integer, intent(in) :: ie
+    integer :: fdiv
+    fdiv = 48 / ie + ie / 3
+  end function fdiv
+''', ['fdiv']),
     'keyword': B('''    r = r + fkw(q=x, p=r) + fkw(loc, q=2.0)
 ''', '''  @ELEM@function fkw(p, q)
     real, intent(in) :: p, q
@@ -1330,12 +1340,13 @@ XFORMS = {
 }
 
 
-# pairs of blocks (d=2) are run under the plain utility and under the default transformation only
+# pairs of blocks (d=2) are run under one or two primary variants only (int: utility; mark: default InlineTransformation;
+# fn: inline_functions on plain functions + InlineTransformation on elemental ones; stmt: utility; const: both external_only)
 PRIMARY = {
-    'int': [XFORMS['int'][0], XFORMS['int'][2]],
-    'mark': [XFORMS['mark'][0], XFORMS['mark'][2]],
-    'fn': [XFORMS['fn'][0], XFORMS['fn'][1], XFORMS['fn'][3]],
-    'stmt': XFORMS['stmt'],
+    'int': [XFORMS['int'][0]],
+    'mark': [XFORMS['mark'][2]],
+    'fn': [XFORMS['fn'][0], XFORMS['fn'][3]],
+    'stmt': [XFORMS['stmt'][0]],
     'const': [XFORMS['const'][0], XFORMS['const'][1]],
 }
 
@@ -1445,6 +1456,8 @@ def make_cases(d):
         for dev in deviations({k: [True] for k in names}, d):
             blocks = ['base'] + [k for k in names if k in dev]
             for xf, opts in (XFORMS[tmpl] if len(dev) <= 1 else PRIMARY[tmpl]):
+                if tmpl == 'mark' and 'callee_import' in blocks and opts.get('adjust_imports') is False:
+                    continue  # precondition: without adjust_imports the user provides the callee's imports
                 cases.append(_mk(tmpl, blocks, xf, opts))
     # all-in-one kernel: option product on the base kernel; feature blocks under the reduced option list
     full = d >= 2
@@ -1480,6 +1493,8 @@ def apply(case, files):
         o['allowed_aliases'] = tuple(o['allowed_aliases'])
     trafo = InlineTransformation(**o) if xf == 'trafo' else None
     for r in _routines(files):
+        if xf in ('stmt', 'fn', 'fnelem', 'const') and r.name.lower() != 'kern':
+            continue  # these utilities resolve nested calls themselves: applied to the kernel only
         if xf == 'int':
             inline_internal_procedures(r, **o)
         elif xf == 'mark':
@@ -1498,13 +1513,19 @@ def apply(case, files):
             raise ValueError(xf)
 
 
+_ORIG = {}
+
+
 def judge(case, orig=None, base=None):
     """xform.run_case with an optional pre-built original (all variants of one program share it)."""
     import traceback
     from loki import Sourcefile, Frontend
     xform.quiet()
     if orig is None:
-        orig = xform.build_run(case['sources'], case['driver'], case.get('extra', ()), base=base)
+        key = repr((case['sources'], case['driver']))
+        if key not in _ORIG:  # replays of one process: the harness-owned original is built once
+            _ORIG[key] = xform.build_run(case['sources'], case['driver'], case.get('extra', ()), base=base)
+        orig = _ORIG[key]
     if not orig['ok']:
         return dict(verdict='HARNESS', detail=f'original fails at {orig["stage"]}: {orig["err"][-600:]}', changed=False)
     try:
